@@ -208,14 +208,11 @@ def judge(plan, sim, sb, cl, ledger, node_results, violations, states, info,
     per_input = {}
     for rec in first:
         inp, res, n_runs = rec['args'][0], rec['args'][1], rec['args'][2]
-        log = rec['kwargs'].get('log_file')
-        for f in (res, log):
-            if f is None:
-                continue
-            if f in seen_files:
-                violate('file_shared_between_tasks',
-                        {'file': sb.rel(f)})
-            seen_files[f] = rec
+        # (only the result file: the statement does not speak of the
+        # progress log)
+        if res in seen_files:
+            violate('file_shared_between_tasks', {'file': sb.rel(res)})
+        seen_files[res] = rec
         if n_runs < 1:
             violate('task_without_trials', {'n_runs': n_runs})
         if inp not in inputs:
